@@ -54,7 +54,7 @@ type mScope struct {
 	parent, depth, ctx int
 	iso                bool
 	kids               []int
-	tasks              int // registered and not yet done
+	tasks              int  // registered and not yet done
 	issued             bool // Close has been issued
 	closed             bool // Close has run to its end (after-close fired, signed off at the parent)
 	ls                 [nEv][]lst
@@ -127,18 +127,35 @@ func (m *model) path(s int) []int {
 	return p
 }
 
-// chain: the listeners a trigger of ev on scope s invokes, in order: ancestors first
-// (root-most first), registration order within a scope, ending with the first that fails.
+// chain: the listeners a trigger of ev on scope s invokes, in order, under the delivery policy
+// measured on the code under test (policy.go; today: ancestors first - root-most first -,
+// registration order within a scope, ending with the first that fails). failed: a failing
+// listener ran.
 func (m *model) chain(s, ev int) (ids []int, failed bool) {
-	for _, a := range m.path(s) {
-		for _, l := range m.sc[a].ls[ev] {
+	pol := policy()
+	levels := m.path(s)
+	if pol.ownFirst {
+		for i, j := 0, len(levels)-1; i < j; i, j = i+1, j-1 {
+			levels[i], levels[j] = levels[j], levels[i]
+		}
+	}
+	for _, a := range levels {
+		ls := m.sc[a].ls[ev]
+		for i := range ls {
+			l := ls[i]
+			if pol.lifo {
+				l = ls[len(ls)-1-i]
+			}
 			ids = append(ids, l.id)
 			if l.fail {
-				return ids, true
+				failed = true
+				if !pol.runAll {
+					return ids, true
+				}
 			}
 		}
 	}
-	return ids, false
+	return ids, failed
 }
 
 func (m *model) errOf(c int) tri {
@@ -269,19 +286,19 @@ func (m *model) closeChainsClean(s int) bool {
 //	close2  a second S.Close() (first one issued, finished or still blocked)
 //	batch   Sub (done / close only) released together from separate goroutines
 type Op struct {
-	K       string `json:"k"`
-	S       int    `json:"s"`
-	Ev      int    `json:"ev,omitempty"`
-	Fail    bool   `json:"fail,omitempty"`
-	Iso     bool   `json:"iso,omitempty"`
+	K    string `json:"k"`
+	S    int    `json:"s"`
+	Ev   int    `json:"ev,omitempty"`
+	Fail bool   `json:"fail,omitempty"`
+	Iso  bool   `json:"iso,omitempty"`
 	// Bare (with Iso): the isolated context is built the way production code below an
 	// isolated scope does it, from the parent's BARE context object
 	// (contextscope.NewIsolated(parent.BaseContextScope())); otherwise from the parent scope
 	// itself (as termc does). Below an isolated parent the bare context is an *Isolated.
-	Bare    bool   `json:"bare,omitempty"`
-	N       int    `json:"n,omitempty"`
-	ProbeUs int    `json:"probe_us,omitempty"`
-	Sub     []Op   `json:"sub,omitempty"`
+	Bare    bool `json:"bare,omitempty"`
+	N       int  `json:"n,omitempty"`
+	ProbeUs int  `json:"probe_us,omitempty"`
+	Sub     []Op `json:"sub,omitempty"`
 }
 
 // Case is a history on one scope tree that starts as a single root scope.
